@@ -458,6 +458,8 @@ def make_scenario(job, groups):
                 ctx.check(False, "no-exception-escapes-producer", repr(e))
                 return
             batch_monitor("drain")
+        lost = [s.idx for s in sends if not s.res and s.in_requests > 0]
+        ctx.check(not lost, "fires-exactly-once", "sends %r were dispatched, every request is resolved, yet their Deferreds never fired" % (lost,))
         if any(not s.res for s in sends) and not st["stopped"] and job.get("batch"):
             # sends still queued below the batching thresholds: stopping must fail them (they then have fired once)
             st["stopped"] = True
